@@ -9,6 +9,7 @@ pub mod c01;
 pub mod c04;
 pub mod c05;
 pub mod c06;
+pub mod c10;
 pub mod c12;
 pub mod c14;
 pub mod c15;
@@ -92,6 +93,7 @@ pub fn run_check(id: &str, tier: &str) -> i32 {
         "C04" => c04::run(tier),
         "C05" => c05::run(tier),
         "C06" => c06::run(tier),
+        "C10" => c10::run(tier),
         "C12" => c12::run_c12(tier),
         "C13" => c12::run_c13(tier),
         "C14" => c14::run(tier),
@@ -123,6 +125,7 @@ pub fn run_replay(path: &str) -> i32 {
         "C04" => c04::replay(&f),
         "C05" => c05::replay(&f),
         "C06" => c06::replay(&f),
+        "C10" => c10::replay(&f),
         "C12" => c12::replay_c12(&f),
         "C13" => c12::replay_c13(&f),
         "C14" => c14::replay(&f),
